@@ -33,6 +33,8 @@ Environment (all optional):
                      "reports": {instance: [state|null...]},  # successive check_jobs answers, last repeats
                      "default": "FINISHED",
                      "qcodes":  ["OK", ...]}           # per check_jobs call, last repeats (default OK)
+                  The log also receives {"call": "poll", "k": k} at every POLL sleep and, per write_script
+                  call, the directory, file names and command texts written.
   E2E_MAX_POLLS   safety net: after that many POLL sleeps the process exits 99.
 """
 import json
@@ -76,6 +78,8 @@ def _sleep(secs=0, *_a, **_k):
         _snap(k)
         if log:
             _append(log, "POLL %d" % k)
+        if _state.get("adapter_log"):
+            _append(_state["adapter_log"], json.dumps({"call": "poll", "k": k}))
         mx = int(os.environ.get("E2E_MAX_POLLS", "400"))
         if k + 1 >= mx:
             sys.stderr.write("e2e_launcher: poll budget exhausted\n")
@@ -94,6 +98,7 @@ def _register_scripted(path):
     from maestrowf.interfaces import ScriptAdapterFactory
     from maestrowf.interfaces.script import SubmissionRecord, CancellationRecord
     log = cfg.get("log")
+    _state["adapter_log"] = log
     st = {"next": 1000, "job_inst": {}, "nsub": {}, "nrep": {}, "nq": 0}
 
     def rec(obj):
@@ -119,7 +124,10 @@ def _register_scripted(path):
                 if pth:
                     os.chmod(pth, os.stat(pth).st_mode | 0o111)     # ScriptAdapter.write_script does the same
             sched = bool(step.run.get("nodes") or step.run.get("procs"))
-            rec({"call": "write_script", "inst": step.name, "scheduled": sched})
+            rec({"call": "write_script", "inst": step.name, "scheduled": sched, "dir": ws_path,
+                 "script": os.path.basename(script), "cmd": step.run["cmd"],
+                 "restart_script": os.path.basename(rscript) if rscript else None,
+                 "restart": step.run["restart"] or None})
             return sched, script, rscript
 
         def submit(self, step, path, cwd, job_map=None, env=None):
